@@ -262,6 +262,13 @@ func TestVerifHarnessC01(t *testing.T) {
 		budget = 230 * time.Second
 	}
 	r := c01NewRunner(t, budget)
+	// watchdog per job: generous in thorough mode, 30 s in quick mode (a hang is a violation either way)
+	jt := func(sec int) time.Duration {
+		if !thorough {
+			return 30 * time.Second
+		}
+		return time.Duration(sec) * time.Second
+	}
 	boundText := ""
 	defer func() { r.writeStats(boundText, false) }()
 
@@ -288,7 +295,7 @@ func TestVerifHarnessC01(t *testing.T) {
 		plans = append(plans, tinyPlan(d))
 	}
 	boundText = fmt.Sprintf("bound=%s seed=%d; all row sequences of length<=%d over 9 row types (cols a,b; values 1,2; empty row) + %d random of length<=10, x %d exprs (all depth<=1, their negations, 200 random depth<=4, unknown column) x 3 writers x 2 open modes", bound, seed, L, nRandTiny, len(tinyExprs))
-	if v := r.run("tiny", c01Jobs(plans, false), 60*time.Second); v != nil {
+	if v := r.run("tiny", c01Jobs(plans, false), jt(60)); v != nil {
 		c01Report(t, "C01", v)
 	}
 
@@ -307,7 +314,7 @@ func TestVerifHarnessC01(t *testing.T) {
 		}
 	}
 	boundText += fmt.Sprintf("; 'strings' and 'wide' generated datasets n in %v x %d seeds", strN, reps)
-	if v := r.run("strings+wide", c01Jobs(plans, false), 60*time.Second); v != nil {
+	if v := r.run("strings+wide", c01Jobs(plans, false), jt(60)); v != nil {
 		c01Report(t, "C01", v)
 	}
 
@@ -334,7 +341,7 @@ func TestVerifHarnessC01(t *testing.T) {
 		}
 	}
 	boundText += fmt.Sprintf("; 'mix' datasets (run/dense/sparse/1300-value/uniform/block columns, 3%% empty rows, trailing empty rows) n in %v", sizes)
-	if v := r.run("batch+container boundaries", c01Jobs(plans, true), 120*time.Second); v != nil {
+	if v := r.run("batch+container boundaries", c01Jobs(plans, true), jt(120)); v != nil {
 		c01Report(t, "C01", v)
 	}
 
@@ -356,7 +363,7 @@ func TestVerifHarnessC01(t *testing.T) {
 		}
 	}
 	boundText += fmt.Sprintf("; large 'mix' datasets n in %v (all three writers, both open modes)", big)
-	if v := r.run("large", c01Jobs(plans, true), 200*time.Second); v != nil {
+	if v := r.run("large", c01Jobs(plans, true), jt(200)); v != nil {
 		c01Report(t, "C01", v)
 	}
 }
